@@ -12,6 +12,8 @@ import (
 	"strings"
 	"sync"
 	"testing"
+
+	"github.com/veraison/psatoken"
 )
 
 // ---------------------------------------------------------------------------
@@ -334,4 +336,36 @@ func (h *hx) UnmarshalJSON(b []byte) error {
 	}
 	*h = d
 	return nil
+}
+
+// ---------------------------------------------------------------------------
+// interfere: encode a handful of OTHER claims-sets (different sizes, both
+// formats, validating and not). Checks call it between obtaining a result
+// (bytes, a signed Evidence) and using it: a result that aliases a buffer the
+// library reuses for later calls would change underneath.
+// ---------------------------------------------------------------------------
+
+var interferePool []psatoken.IClaims
+
+func interfere() {
+	if interferePool == nil {
+		for _, p := range []Prof{P1, P2} {
+			for v := 0; v < 3; v++ {
+				if c, ok := baseValid(p, v).BuildLiteral(); ok {
+					interferePool = append(interferePool, c)
+				}
+			}
+		}
+		big := baseValid(P2, 1)
+		big.VSI = sp(strings.Repeat("interference ", 40))
+		if c, ok := big.BuildLiteral(); ok {
+			interferePool = append(interferePool, c)
+		}
+	}
+	for _, c := range interferePool {
+		_, _ = psatoken.EncodeClaimsToCBOR(c)
+		_, _ = psatoken.ValidateAndEncodeClaimsToCBOR(c)
+		_, _ = psatoken.EncodeClaimsToJSON(c)
+		_, _ = psatoken.ValidateAndEncodeClaimsToJSON(c)
+	}
 }
